@@ -37,35 +37,43 @@ def run(ctx):
                        "offsets are positive unless min_offset >= 1 makes a zero-offset segment infeasible",
                        "instances without any feasible segmentation are outside the statement",
                        "floating point decides the comparison only at exact rational ties (either side accepted)"]
-    # J1 + generation for J2 in one exhaustive run
+    # J3 instances: larger seeded random ones; TLC computes their admissible sets (Source "file" / "both")
+    rows = rc.random_cp_instances(ctx.rng, 60 if q else 600, 40 if q else 400)
+    path = rc.write_ndjson(rc.work_file(ctx, "c26_inst.ndjson"), rows)
+    # J1 + generation for J2 in one exhaustive run (quick: the random instances ride along, to save a JVM start)
     scope = dict(max_len=3 if q else 4, max_count=3, max_total=3 if q else 4, epochs=(1, 2, 3, 4),
                  ks=(1, 2) if q else (1, 2, 3), mcs=(0, 1) if q else (0, 1, 2), mos=(0, 1),
-                 offs=(1, 2), variants=VARIANTS, emit=True)
-    r = rc.cp_run(ctx, "c26_j1", rc.SOUND_INVARIANTS + ["EmitInv"], workers=8,
-                  required=("Pick", "AddCount", "AddOff", "RunFixed", "StartPoisson", "Column"), **scope)
-    fixed = rc.group_fixed(r.rec("fixed"))
-    pois = rc.group_poisson(r.rec("pois"))
+                 offs=(1, 2), variants=VARIANTS[1:] if q else VARIANTS, emit=True)
+    acts = ("Pick", "AddCount", "AddOff", "RunFixed", "StartPoisson", "Column")
+    if q:
+        r = rc.cp_run(ctx, "c26_j1", rc.SOUND_INVARIANTS + ["EmitInv"], workers=8, inst_file=path, source="both",
+                      required=acts + ("Load",), **scope)
+    else:
+        r = rc.cp_run(ctx, "c26_j1", rc.SOUND_INVARIANTS + ["EmitInv"], workers=8, required=acts, **scope)
+    fixed = [g for g in rc.group_fixed(r.rec("fixed")) if g["id"] == 0]
+    pois = [g for g in rc.group_poisson(r.rec("pois")) if g["id"] == 0]
+    fixed_big = [g for g in rc.group_fixed(r.rec("fixed")) if g["id"] != 0]
+    pois_big = [g for g in rc.group_poisson(r.rec("pois")) if g["id"] != 0]
+    ctx.exhaustive = True
     if not q:
         r2 = rc.cp_run(ctx, "c26_j1b", rc.SOUND_INVARIANTS + ["EmitInv"], workers=8, kinds=("fixed",), max_len=5,
                        max_count=4, max_total=8, epochs=(2, 3, 4, 5, 6), emit=True, required=("RunFixed",))
         fixed += rc.group_fixed(r2.rec("fixed"))
-    ctx.exhaustive = True
-    # expected refutations: the design as implemented is unsound (DESIGN section 9 item 10)
-    for name, variant, extra in (("prune", "zero/impl", dict(mcs=(1,), mos=(0,))),
-                                 ("zero", "nan/impl", dict(mcs=(0,), mos=(0,)))):
-        rr = rc.cp_run(ctx, "c26_refute_" + name, ["PoissonOptimalAnyVariant"], must_hold=False, workers=2,
-                       kinds=("poisson",), max_len=4 if name == "prune" else 2, max_count=3, max_total=4, ks=(1,),
-                       offs=(1,), variants=(variant,), **extra)
-        ctx.count("model_refuted_" + variant.replace("/", "_"), 1 if rr.violated else 0)
-        if not rr.violated:
-            raise harness.MachineryError(f"TLC was expected to refute optimality of variant {variant}")
-    # J3: larger random instances, TLC computes the admissible sets
-    rows = rc.random_cp_instances(ctx.rng, 60 if q else 600, 40 if q else 400)
-    path = rc.write_ndjson(rc.work_file(ctx, "c26_inst.ndjson"), rows)
-    r3 = rc.cp_run(ctx, "c26_j3", ["FixedMonotone", "ResultIsSegmentation", "DictOK", "EmitInv"], inst_file=path,
-                   source="file", emit=True, workers=8, required=("Load",))
-    fixed_big = rc.group_fixed(r3.rec("fixed"))
-    pois_big = rc.group_poisson(r3.rec("pois"))
+        # expected refutations: the design as first implemented is unsound (DESIGN section 9 item 10)
+        for name, variant, extra in (("prune", "zero/impl", dict(mcs=(1,), mos=(0,))),
+                                     ("zero", "nan/impl", dict(mcs=(0,), mos=(0,)))):
+            rr = rc.cp_run(ctx, "c26_refute_" + name, ["PoissonOptimalAnyVariant"], must_hold=False, workers=2,
+                           kinds=("poisson",), max_len=4 if name == "prune" else 2, max_count=3, max_total=4, ks=(1,),
+                           offs=(1,), variants=(variant,), **extra)
+            ctx.count("model_refuted_" + variant.replace("/", "_"), 1 if rr.violated else 0)
+            if not rr.violated:
+                raise harness.MachineryError(f"TLC was expected to refute optimality of variant {variant}")
+        r3 = rc.cp_run(ctx, "c26_j3", ["FixedMonotone", "ResultIsSegmentation", "DictOK", "EmitInv"], inst_file=path,
+                       source="file", emit=True, workers=8, required=("Load",))
+        fixed_big = rc.group_fixed(r3.rec("fixed"))
+        pois_big = rc.group_poisson(r3.rec("pois"))
+    if not (fixed and pois and fixed_big and pois_big):
+        raise harness.MachineryError("vacuous run: an instance class is empty")
     ctx.count("random_instances_judged_by_tlc", len(fixed_big) + len(pois_big))
 
     for inst in fixed + fixed_big:
